@@ -381,10 +381,24 @@ def check_many(case, rec, enum=False, mode="c08"):
     lists = case["arrays"]
     arrays = [_arr(l) for l in lists]
     want = sorted(set().union(*[set(l) for l in lists])) if lists else []
+    # lists with equal content are ALSO passed as one and the same array object (a shared row-id array
+    # appearing several times in the list)
+    seen = {}
+    shared = [seen.setdefault(tuple(l), a) for a, l in zip(arrays, lists)]
+    repeated = len({id(a) for a in shared}) < len(shared)
+    if repeated:
+        rec.note("same array object repeated in the list")
     if mode == "c09":
         with observe("set_union_merge_many", rec):
             so.set_union_merge_many(list(arrays))
+        if repeated:
+            with observe("set_union_merge_many (an array object repeated)", rec):
+                so.set_union_merge_many(list(shared))
     else:
+        if repeated:
+            with libcall("set_union_merge_many (an array object repeated)"):
+                got = so.set_union_merge_many(list(shared))
+            _verify("set_union_merge_many (an array object repeated)", got, want, shared, lists)
         holder = list(arrays)
         with libcall("set_union_merge_many"):
             got = so.set_union_merge_many(holder)
